@@ -508,7 +508,7 @@ func (w *World) record(ev M, p *Party, cr callResult, out []M, err error) M {
 	}
 	ev["p"] = p.Name
 	ev["i"] = w.N + 1
-	for k, v := range map[string]interface{}{"plain": 0, "hi": false, "np": 0, "text": 0, "prs": false, "atk": "", "raweq": false, "s": 0, "q": false, "run": 0, "xk": true} {
+	for k, v := range map[string]interface{}{"plain": 0, "hi": false, "np": 0, "text": 0, "prs": false, "atk": "", "raweq": false, "s": 0, "q": false, "run": 0, "xk": true, "big": false} {
 		if _, ok := ev[k]; !ok {
 			ev[k] = v
 		}
@@ -791,14 +791,16 @@ func (w *World) SMPStart(p *Party, secret []byte, question string, sid int) M {
 	var out []otr3.ValidMessage
 	var err error
 	run := 0
-	if p.Conv.IsEncrypted() {
+	// a question that does not fit into a TLV is refused: nothing starts
+	big := len(question) > 65000
+	if p.Conv.IsEncrypted() && !big {
 		p.SMPTerm = w.smpTerm(p, true, sid)
 		w.smpRuns++
 		run = w.smpRuns
 		p.SMPRun = run
 	}
 	cr := w.call(p, func() { out, err = p.Conv.StartAuthenticate(question, secret) })
-	return w.record(M{"ev": "SMPStart", "s": sid, "q": question != "", "run": run}, p, cr, w.emit(p, out), err)
+	return w.record(M{"ev": "SMPStart", "s": sid, "q": question != "", "run": run, "big": big}, p, cr, w.emit(p, out), err)
 }
 
 func (w *World) SMPAnswer(p *Party, secret []byte, sid int) M {
